@@ -160,19 +160,16 @@ Definition ser_edit_root (t : ty) (v : sval) : result tomlval := rbind (ser_valu
      scalars, none, some, unit, unit_struct, unit_variant, newtype_struct, newtype_variant:
                           write_document(ValueSerializer::new().serialize_X(..))
      seq, tuple, tuple_struct, TUPLE VARIANT: ValueSerializer::serialize_seq, elements, write_document(inner.end())
-     map, struct (whatever its name):         ValueSerializer::serialize_map, entries, write_document(inner.end())
+     map:                 ValueSerializer::serialize_map, entries, write_document(inner.end())
+     struct:              ValueSerializer::serialize_struct(name, len) — the NAME is passed on (repair of
+                          C06-root-datetime-printed-as-table; before: serialize_map, so that a root Datetime was
+                          written as the table { FIELD = "text" }), fields, write_document(inner.end())
      struct_variant:      Err(UnsupportedType(Some(name)))   — `name` is the enum's name
    write_document: the value must convert into a table, else Err(UnsupportedType(None)).
-   Differences from ser_edit_root on the level of the tree: a struct variant at the root, a tuple
-   variant at the root (written as a bare array, refused by write_document), a unit variant, and
-   a struct named NAME (Datetime) at the root, which is written as the table { FIELD = "text" }
-   (known class private-datetime-key). *)
+   Differences from ser_edit_root on the level of the tree: a struct variant at the root (refused by name), a
+   tuple variant at the root (written as a bare array, refused by write_document), a unit variant. *)
 Definition ser_toml_root (t : ty) (v : sval) : result tomlval :=
   match t, v with
-  | TDatetime _, SDt d => Ok (VTab [(DT_FIELD, VStr (display_datetime d))])
-  | TStruct n fs, SRec vs =>
-    rmap (fun ps => VTab (tab_of_pairs (somes_pairs ps)))
-         (zipM (fun ft v' => rmap (optmap (fun x => (fst ft, x))) (ser_map_value ser_value (snd ft) v')) fs vs)
   | TEnum n vs, SVariant i p =>
     pick (fun nv =>
             match snd nv with
@@ -186,7 +183,7 @@ Definition ser_toml_root (t : ty) (v : sval) : result tomlval :=
   end.
 
 (* ---- toml::Value::try_from / toml::Table::try_from (crates/toml/src/value.rs) ----------------------
-   (after the repairs of C13-tryfrom-datetime-table and C13-tryinto-datetime-string)
+   (after the repairs of C13-tryfrom-datetime-table, C13-tryinto-datetime-string and C07-tryfrom-nested-none-dropped)
    toml::Table = BTreeMap<String, Value> (feature preserve_order off): insert keeps the entries
    sorted by key (byte-wise String order) and replaces the value of an equal key. *)
 Fixpoint bytes_ltb (a b : bytes) : bool :=
@@ -215,21 +212,43 @@ Definition tv_int_err (w : int_ty) : err :=
   | M_i64 => EBadCase
   end.
 
-(* SerializeMap::serialize_value (value.rs:1323): `match Value::try_from(value)` —
-   Ok => insert; Err(UnsupportedNone) => {} (ANY UnsupportedNone coming out of the value, not only a
-   direct None: known finding C07-tryfrom-nested-none-dropped); Err(e) => return Err(e) *)
-Definition tv_map_value (r : result tomlval) : result (option tomlval) :=
-  match r with
-  | Ok x => Ok (Some x)
-  | Err EUnsupportedNone => Ok None
-  | Err e => Err e
-  end.
+(* SerializeMap::serialize_value: the value goes to a ValueSerializer that carries `is_none`; only `serialize_none`
+   called on THAT serializer sets it (serialize_some and serialize_newtype_struct hand the inner value to a fresh
+   one), and only then is the UnsupportedNone swallowed and the entry left out — exactly toml_edit's
+   MapValueSerializer: `ser_map_value tv_ser`.  (Repair of C07-tryfrom-nested-none-dropped; before, ANY
+   UnsupportedNone coming out of the value was swallowed.) *)
 (* SerializeMap::serialize_key: `match Value::try_from(key)? { Value::String(s) => .., _ => Err(key_not_string) }` *)
 Definition tv_key (r : result tomlval) : result bytes :=
   match r with
   | Ok (VStr s) => Ok s
   | Ok _ => Err EKeyNotString
   | Err e => Err e
+  end.
+
+(* Map key types on which Value::try_from and the document serializers give the same verdict: SerializeMap::serialize_key
+   accepts whatever serializes to a Value::String — a `char` and an `Option<String>` too, which toml_edit's
+   KeySerializer refuses (a documented difference of the two entry points, not a loss of data) *)
+Fixpoint doc_key_ty (t : ty) : bool :=
+  match t with
+  | TChar | TOpt _ => false
+  | TNewtype _ t' => doc_key_ty t'
+  | _ => true
+  end.
+Fixpoint doc_keys (t : ty) {struct t} : bool :=
+  match t with
+  | TOpt t' | TSeq t' | TNewtype _ t' => doc_keys t'
+  | TTuple ts | TTupleStruct _ ts => forallb doc_keys ts
+  | TMap k v => doc_key_ty k && doc_keys k && doc_keys v
+  | TStruct _ fs => forallb (fun ft => doc_keys (snd ft)) fs
+  | TEnum _ vs => forallb (fun nv => doc_keys_variant (snd nv)) vs
+  | _ => true
+  end
+with doc_keys_variant (var : variant) {struct var} : bool :=
+  match var with
+  | VUnit => true
+  | VNewtype t => doc_keys t
+  | VTuple ts => forallb doc_keys ts
+  | VStruct fs => forallb (fun ft => doc_keys (snd ft)) fs
   end.
 
 (* ValueSerializer::serialize_struct remembers `name == NAME` (toml_datetime's private struct); SerializeStruct::end
@@ -266,9 +285,9 @@ Fixpoint tv_ser (t : ty) (v : sval) {struct t} : result tomlval :=
   | TMap kt vt, SMap es =>
     rmap (fun ps => VTab (btree_of_pairs (somes_pairs ps)))
          (mapM (fun kv => rbind (tv_key (tv_ser kt (fst kv))) (fun k =>
-                          rmap (optmap (fun x => (k, x))) (tv_map_value (tv_ser vt (snd kv))))) es)
+                          rmap (optmap (fun x => (k, x))) (ser_map_value tv_ser vt (snd kv)))) es)
   | TStruct n fs, SRec vs =>
-    rbind (zipM (fun ft v' => rmap (optmap (fun x => (fst ft, x))) (tv_map_value (tv_ser (snd ft) v'))) fs vs)
+    rbind (zipM (fun ft v' => rmap (optmap (fun x => (fst ft, x))) (ser_map_value tv_ser (snd ft) v')) fs vs)
           (fun ps => if bytes_eqb n DT_NAME then tv_dt_end (btree_of_pairs (somes_pairs ps))
                      else Ok (VTab (btree_of_pairs (somes_pairs ps))))
   | TNewtype _ t', SNewtype v' => tv_ser t' v'
@@ -286,7 +305,7 @@ with tv_payload (var : variant) (p : sval) {struct var} : result tomlval :=
   | VTuple ts, SSeq vs => rmap VArr (zipM tv_ser ts vs)
   | VStruct fs, SRec vs =>
     rmap (fun ps => VTab (btree_of_pairs (somes_pairs ps)))
-         (zipM (fun ft v' => rmap (optmap (fun x => (fst ft, x))) (tv_map_value (tv_ser (snd ft) v'))) fs vs)
+         (zipM (fun ft v' => rmap (optmap (fun x => (fst ft, x))) (ser_map_value tv_ser (snd ft) v')) fs vs)
   | _, _ => Err EBadCase
   end.
 
@@ -301,7 +320,7 @@ Fixpoint tv_ser_table (t : ty) (v : sval) {struct t} : result tomlval :=
   | TMap _ _, SMap _ => tv_ser t v
   | TStruct _ fs, SRec vs =>                              (* TableSerializer::serialize_struct = serialize_map: any name *)
     rmap (fun ps => VTab (btree_of_pairs (somes_pairs ps)))
-         (zipM (fun ft v' => rmap (optmap (fun x => (fst ft, x))) (tv_map_value (tv_ser (snd ft) v'))) fs vs)
+         (zipM (fun ft v' => rmap (optmap (fun x => (fst ft, x))) (ser_map_value tv_ser (snd ft) v')) fs vs)
   | TDatetime _, SDt d => Ok (VTab [(DT_FIELD, VStr (display_datetime d))])   (* known class private-datetime-key *)
   | TTupleStruct n _, SSeq _ => Err (EUnsupportedType (Some n))
   | TEnum n vs, SVariant i p =>
